@@ -42,5 +42,5 @@ def z3_grant(n, reqs, ptr):
 
 def z3_next_ptr(n, reqs, ptr, en, reset):
   g = z3_grant(n, reqs, ptr)
-  rot = z3.RotateLeft(g, 1)
+  rot = z3.Concat(z3.Extract(n - 2, 0, g), z3.Extract(n - 1, n - 1, g)) if n > 1 else g      # rotate left by one (standard SMT-LIB operators only)
   return z3.If(reset, z3.BitVecVal(1, n), z3.If(z3.And(g != 0, en), rot, ptr))
